@@ -2,16 +2,18 @@
 # usage: selftest_seeds.sh [seed-dir-name ...]   (default: all under seeded/)
 # Applies each seeded defect to /repo, runs the property's quick check, reverts.
 # Expected: exit 1 with a VIOLATION line.  Prints one result line per seed.
+# VERIF_REPO=<worktree> runs the round against a scratch worktree instead of /repo.
 cd /verif || exit 2
+REPO="${VERIF_REPO:-/repo}"
 seeds="$*"; [ -z "$seeds" ] && seeds="$(ls seeded)"
 for s in $seeds; do
   id="${s%%_*}"
-  if ! git -C /repo diff --quiet; then echo "$s: /repo has local changes, skipping"; continue; fi
-  if ! git -C /repo apply --check "/verif/seeded/$s/patch.diff" 2>/dev/null; then echo "$s: patch does not apply"; continue; fi
-  git -C /repo apply "/verif/seeded/$s/patch.diff"
+  if ! git -C "$REPO" diff --quiet; then echo "$s: $REPO has local changes, skipping"; continue; fi
+  if ! git -C "$REPO" apply --check "/verif/seeded/$s/patch.diff" 2>/dev/null; then echo "$s: patch does not apply"; continue; fi
+  git -C "$REPO" apply "/verif/seeded/$s/patch.diff"
   out="$(./check "$id" --tier quick 2>&1)"; code=$?
-  git -C /repo checkout -- .
+  git -C "$REPO" checkout -- .
   line="$(echo "$out" | grep -m1 '^VIOLATION')"
   echo "$s: exit=$code ${line:-no VIOLATION line} | $(echo "$out" | grep -m3 'FAILED\|UNDECIDED' | tr '\n' ';' | cut -c1-300)"
 done
-git -C /repo status --short | head -3
+git -C "$REPO" status --short | head -3
